@@ -1,0 +1,7 @@
+//go:build !verif
+
+package uci
+
+// verifPoint marks a scheduling point for verification builds (build tag
+// verif); it does nothing in a normal build.
+func verifPoint(string) {}
